@@ -196,6 +196,102 @@ fn run(sc: &Value, trace: Option<Vec<(String, u16)>>, pool: &Arc<rayon::ThreadPo
     Some(o)
 }
 
+// ---------------------------------------------------------------------------------------------------------
+// C16: par/seq trees on real rayon
+// ---------------------------------------------------------------------------------------------------------
+
+pub struct BNode(pub Box<dyn for<'a> shred::RunWithPool<'a> + Send>);
+
+impl<'a> shred::RunWithPool<'a> for BNode {
+    fn setup(&mut self, world: &mut World) {
+        self.0.setup(world)
+    }
+    fn run(&mut self, world: &'a World, pool: &rayon::ThreadPool) {
+        self.0.run(world, pool)
+    }
+    fn reads(&self, reads: &mut Vec<shred::ResourceId>) {
+        self.0.reads(reads)
+    }
+    fn writes(&self, writes: &mut Vec<shred::ResourceId>) {
+        self.0.writes(writes)
+    }
+}
+
+fn make_node(par: bool, mut c: Vec<BNode>) -> Option<BNode> {
+    use shred::{Par, Seq};
+    let n = c.len();
+    let mut it = c.drain(..);
+    let mut nx = || it.next().unwrap();
+    Some(match (par, n) {
+        (true, 1) => BNode(Box::new(Par::new(nx()))),
+        (true, 2) => BNode(Box::new(Par::new(nx()).with(nx()))),
+        (true, 3) => BNode(Box::new(Par::new(nx()).with(nx()).with(nx()))),
+        (true, 4) => BNode(Box::new(Par::new(nx()).with(nx()).with(nx()).with(nx()))),
+        (true, 5) => BNode(Box::new(Par::new(nx()).with(nx()).with(nx()).with(nx()).with(nx()))),
+        (true, 6) => BNode(Box::new(Par::new(nx()).with(nx()).with(nx()).with(nx()).with(nx()).with(nx()))),
+        (false, 1) => BNode(Box::new(Seq::new(nx()))),
+        (false, 2) => BNode(Box::new(Seq::new(nx()).with(nx()))),
+        (false, 3) => BNode(Box::new(Seq::new(nx()).with(nx()).with(nx()))),
+        (false, 4) => BNode(Box::new(Seq::new(nx()).with(nx()).with(nx()).with(nx()))),
+        (false, 5) => BNode(Box::new(Seq::new(nx()).with(nx()).with(nx()).with(nx()).with(nx()))),
+        (false, 6) => BNode(Box::new(Seq::new(nx()).with(nx()).with(nx()).with(nx()).with(nx()).with(nx()))),
+        _ => return None,
+    })
+}
+
+fn build_tree(v: &Value, next: &mut usize, ctx: &Arc<Ctx>) -> Option<BNode> {
+    if let Some(l) = v.get("leaf") {
+        let f = |x: &Value| -> Vec<u8> { x.as_array().map(|a| a.iter().filter_map(|e| e.as_u64().map(|n| n as u8)).collect()).unwrap_or_default() };
+        let id = *next;
+        *next += 1;
+        return Some(BNode(Box::new(RSys::new(id, &f(l.get(0)?), &f(l.get(1)?), 3, ctx))));
+    }
+    let (par, kids) = if let Some(c) = v.get("par") { (true, c) } else { (false, v.get("seq")?) };
+    let mut ch = Vec::new();
+    for k in kids.as_array()? {
+        ch.push(build_tree(k, next, ctx)?);
+    }
+    make_node(par, ch)
+}
+
+fn count_leaves(v: &Value) -> usize {
+    if v.get("leaf").is_some() {
+        return 1;
+    }
+    v.get("par").or_else(|| v.get("seq")).and_then(|c| c.as_array()).map_or(0, |a| a.iter().map(count_leaves).sum())
+}
+
+/// (world values, observations, failed)
+fn run_tree(it: &Value, trace: Option<Vec<(String, u16)>>, pool: &Arc<rayon::ThreadPool>) -> Option<(Vec<u64>, Vec<Vec<u64>>, bool)> {
+    let tree = it.get("tree")?;
+    let inside = it.get("inside")?.as_bool()?;
+    let dispatches = it.get("dispatches")?.as_u64()?;
+    let n = count_leaves(tree);
+    let free = trace.is_none();
+    let turn = Arc::new(Turn { trace: trace.unwrap_or_default(), cursor: Mutex::new(0), cv: Condvar::new(), free: AtomicBool::new(free), failed: AtomicBool::new(false), deadline: Duration::from_millis(700), realised: Mutex::new(vec![]) });
+    fn no_identify(_: &mut Dispatcher<'_, '_>, _: &Arc<Ctx>, _: &World) -> String {
+        String::new()
+    }
+    let ctx = Arc::new(Ctx { turn: turn.clone(), obs: Mutex::new(vec![vec![]; n]), local: Mutex::new(vec![0; n]), runs: Mutex::new(vec![0; n]), dispatch_no: AtomicU32::new(0), ident: AtomicBool::new(false), ident_log: Mutex::new(vec![]), inner_layouts: Mutex::new(vec![]), identify: no_identify });
+    let mut next = 0;
+    let root = build_tree(tree, &mut next, &ctx)?;
+    let mut ps = shred::ParSeq::new(root, pool.clone());
+    let mut world = new_world();
+    ps.setup(&mut world);
+    for _ in 0..dispatches {
+        if inside {
+            let (w, p) = (&world, &mut ps);
+            pool.install(move || p.dispatch(w));
+        } else {
+            ps.dispatch(&world);
+        }
+    }
+    let done = *turn.cursor.lock().unwrap() >= turn.trace.len();
+    let failed = turn.failed.load(Ordering::Relaxed) || (!free && !done);
+    let obs = ctx.obs.lock().unwrap().clone();
+    Some((world_values(&world), obs, failed))
+}
+
 /// C11 witness on the real crate and real rayon: `w` resource-less systems share one stage; every one
 /// waits (bounded) until all `w` are inside `run`.  With a pool of `w` idle threads this must succeed.
 fn rendezvous_witness(frag: Option<String>) -> i32 {
@@ -321,6 +417,31 @@ fn main() {
     let mut skipped_nested = 0u64;
     let mut kf2_diverged = 0u64;
     for it in &items {
+        if it.get("tree").is_some() {
+            let trace: Vec<(String, u16)> = it.get("trace").and_then(|t| t.as_array()).map(|a| a.iter().filter_map(|e| Some((e.get(0)?.as_str()?.to_string(), e.get(1)?.as_u64()? as u16))).collect()).unwrap_or_default();
+            let mut forced = run_tree(it, Some(trace.clone()), &pool);
+            let mut attempts = 1;
+            while attempts < 4 && forced.as_ref().map_or(false, |f| f.2) {
+                forced = run_tree(it, Some(trace.clone()), &pool);
+                attempts += 1;
+                retries += 1;
+            }
+            let reference = run_tree(it, None, &pool);
+            match (forced, reference) {
+                (Some(f), Some(r)) => {
+                    if f.2 || f.0 != r.0 || f.1 != r.1 {
+                        failures.push(json!({"tree": it.get("tree"), "inside": it.get("inside"), "trace_len": trace.len(), "could_not_follow_order": f.2, "same_outcome_as_reference": f.0 == r.0 && f.1 == r.1}));
+                    } else {
+                        realised += 1;
+                        if samples.len() < 2 {
+                            samples.push(json!({"tree": it.get("tree"), "forced_event_order": trace.iter().map(|(k, s)| format!("{}({})", k, s)).collect::<Vec<_>>().join(" ")}));
+                        }
+                    }
+                }
+                _ => skipped += 1,
+            }
+            continue;
+        }
         let sc = match it.get("scenario") {
             Some(s) => s,
             None => {
